@@ -60,6 +60,8 @@ Definition abs_ok (mx sh : N) (a : cm_abs) : Prop :=
   1 <= a_nh a < 256 /\ 3 <= a_nb a < 4294967296 /\ a_nh a * a_nb a < 1073741824 /\
   a_sh a = sh /\ sh < 65536 /\ mx < 18446744073709551616 /\
   a_total a <= mx /\ Forall (fun c => c <= mx) (a_cells a) /\
+  (* a table built by updates and merges: no counter exceeds the total weight *)
+  Forall (fun c => c <= a_total a) (a_cells a) /\
   length (a_cells a) = N.to_nat (a_nh a * a_nb a) /\
   (a_total a = 0 -> a_cells a = repeat 0 (N.to_nat (a_nh a * a_nb a))).
 
@@ -67,6 +69,6 @@ Definition abs_ok (mx sh : N) (a : cm_abs) : Prop :=
 Definition abs_okb (mx sh : N) (a : cm_abs) : bool :=
   (1 <=? a_nh a) && (a_nh a <? 256) && (3 <=? a_nb a) && (a_nb a <? 4294967296) &&
   (a_nh a * a_nb a <? 1073741824) && (a_sh a =? sh) && (a_total a <=? mx) &&
-  forallb (fun c => c <=? mx) (a_cells a) &&
+  forallb (fun c => c <=? mx) (a_cells a) && forallb (fun c => c <=? a_total a) (a_cells a) &&
   Nat.eqb (length (a_cells a)) (N.to_nat (a_nh a * a_nb a)) &&
   (negb (a_total a =? 0) || forallb (fun c => c =? 0) (a_cells a)).
